@@ -171,7 +171,7 @@ const MARK_BURST_DONE: u32 = 3;
 
 /// Behavioural probe of a built store against the model. Returns the world for the oracle.
 fn probe(ctx: Arc<Ctx>, st: Arc<RStore>, m: &Model) -> W {
-    let w = W::from_store(ctx, StoreCfg { policy: m.pol, cap: m.cap, n_red: m.reds.len() as u32, n_mw: m.mws.len() as u32, name: m.name.clone() }, st);
+    let w = W::from_store(ctx, StoreCfg { policy: m.pol, cap: m.cap, n_red: m.reds.len() as u32, n_mw: m.mws.len() as u32, name: m.name.clone(), ctor: 0 }, st);
     let counter = Arc::new(Counter::new());
     // sentinel subscriber: gated (parks for the plug if there is neither reducer nor middleware)
     let id = {
